@@ -285,7 +285,7 @@ func judgeAll(c *lib.Ctx, dir string, items []item, capKnown int) error {
 		its = append(its, drv.Item{What: it.what, Module: it.rc.Module, Events: it.rc.Events, Case: it.rc, Known: known})
 	}
 	c.Set("runs_showing_the_known_pattern", npat)
-	skipped, err := drv.JudgeAll(c, dir, nil, its, capKnown, 4000, 6, func(it drv.Item, v *lib.TraceVerdict) {
+	skipped, err := drv.JudgeAll(c, dir, nil, its, capKnown, 4000, 6, "", func(it drv.Item, v *lib.TraceVerdict) {
 		reject(c, it.What, it.Case.(replayCase), v)
 	})
 	c.Set("runs_not_judged_after_the_known_pattern_was_rejected_cap_times", skipped)
